@@ -51,10 +51,10 @@ Lemma stream_ok_wfp k pps : stream_ok k pps -> Forall (fun pp => length (fst pp)
 Proof. unfold stream_ok. apply Forall_impl. intros a [H1 H2]. split; auto. now apply ccsds_wfp. Qed.
 
 (* C02: exact framing for the three source kinds, any chunking into non-empty chunks *)
-Theorem frame_bytes_exact k pps : stream_ok k pps ->
-  frame 0 k (encode pps) [] = Some (map snd pps).
+Theorem frame_bytes_exact T k pps : stream_ok k pps ->
+  frameT T 0 k (encode pps) [] = Some (map snd pps).
 Proof.
-  intro H. apply stream_ok_wfp in H. unfold frame. cbn [Z.eqb].
+  intro H. apply stream_ok_wfp in H. unfold frameT. cbn [Z.eqb].
   apply (frame_exact plen_ccsds plen_ccsds_pos); auto.
   - constructor.
   - lia.
@@ -65,11 +65,11 @@ Proof.
     assert (length pps <= length (encode pps)); [|lia]. apply L. eapply Forall_impl; [|exact H]. intros a [? ?]; auto.
 Qed.
 
-Theorem frame_chunked_exact kind k junk pps cs : (kind = 1 \/ kind = 2)%Z -> stream_ok k pps ->
+Theorem frame_chunked_exact T kind k junk pps cs : (kind = 1 \/ kind = 2)%Z -> stream_ok k pps ->
   nonempty cs -> concat cs = encode pps ->
-  frame kind k junk cs = Some (map snd pps).
+  frameT T kind k junk cs = Some (map snd pps).
 Proof.
-  intros Hkind H Hne Hc. apply stream_ok_wfp in H. unfold frame.
+  intros Hkind H Hne Hc. apply stream_ok_wfp in H. unfold frameT.
   assert (Hfuel : length pps < S (length junk + length (concat cs))).
   { rewrite Hc. pose proof (encode_length_ge plen_ccsds pps plen_ccsds_pos) as L.
     assert (length pps <= length (encode pps)); [|lia]. apply L. eapply Forall_impl; [|exact H]. intros a [? ?]; auto. }
@@ -92,40 +92,40 @@ Proof.
 Qed.
 
 (* C10: any bytes, any chunking *)
-Theorem frame_terminates kind k stream cs :
-  exists items rest, frame kind k stream cs = Some items /\
+Theorem frame_terminates T kind k stream cs :
+  exists items rest, frameT T kind k stream cs = Some items /\
     Forall (wfp plen_ccsds) items /\
     consecutive k (if (kind =? 0)%Z then stream else concat cs) items rest.
 Proof.
-  unfold frame.
+  unfold frameT.
   destruct (kind =? 0)%Z.
-  - destruct (terminates_and_complete plen_ccsds plen_ccsds_pos (S (length stream + length (concat cs))) TRIM k
+  - destruct (terminates_and_complete plen_ccsds plen_ccsds_pos (S (length stream + length (concat cs))) T k
                (Some (length stream)) stream 0 0 []) as (items & rest & H1 & H2 & H3).
     + lia.
     + unfold remaining. cbn [concat length]. lia.
     + exists items, rest. cbn [skipn concat] in H3. rewrite app_nil_r in H3. auto.
   - destruct (kind =? 1)%Z.
-    + destruct (terminates_and_complete plen_ccsds plen_ccsds_pos (S (length stream + length (concat cs))) TRIM k
+    + destruct (terminates_and_complete plen_ccsds plen_ccsds_pos (S (length stream + length (concat cs))) T k
                (Some (length (concat cs))) [] 0 0 cs) as (items & rest & H1 & H2 & H3).
       * cbn; lia.
       * unfold remaining. cbn [length]. lia.
       * exists items, rest. auto.
-    + destruct (terminates_and_complete plen_ccsds plen_ccsds_pos (S (length stream + length (concat cs))) TRIM k
+    + destruct (terminates_and_complete plen_ccsds plen_ccsds_pos (S (length stream + length (concat cs))) T k
                None [] 0 0 cs) as (items & rest & H1 & H2 & H3).
       * cbn; lia.
       * unfold remaining. cbn [length]. lia.
       * exists items, rest. auto.
 Qed.
 
-Theorem frame_remainder_short kind k stream cs : nonempty cs ->
-  exists items rest, frame kind k stream cs = Some items /\
+Theorem frame_remainder_short T kind k stream cs : nonempty cs ->
+  exists items rest, frameT T kind k stream cs = Some items /\
     Forall (wfp plen_ccsds) items /\
     consecutive k (if (kind =? 0)%Z then stream else concat cs) items rest /\
     (length rest < k + 6 \/ length rest < k + plen_ccsds (firstn 6 (skipn k rest))).
 Proof.
-  intro Hne. unfold frame.
+  intro Hne. unfold frameT.
   destruct (kind =? 0)%Z.
-  - destruct (terminates_complete_short plen_ccsds plen_ccsds_pos (S (length stream + length (concat cs))) TRIM k
+  - destruct (terminates_complete_short plen_ccsds plen_ccsds_pos (S (length stream + length (concat cs))) T k
                (Some (length stream)) stream 0 0 []) as (items & rest & H1 & H2 & H3 & H4).
     + constructor.
     + lia.
@@ -133,14 +133,14 @@ Proof.
     + intros t Ht. injection Ht as <-. unfold remaining. cbn [concat length]. lia.
     + exists items, rest. cbn [skipn concat] in H3. rewrite app_nil_r in H3. auto.
   - destruct (kind =? 1)%Z.
-    + destruct (terminates_complete_short plen_ccsds plen_ccsds_pos (S (length stream + length (concat cs))) TRIM k
+    + destruct (terminates_complete_short plen_ccsds plen_ccsds_pos (S (length stream + length (concat cs))) T k
                (Some (length (concat cs))) [] 0 0 cs) as (items & rest & H1 & H2 & H3 & H4).
       * assumption.
       * cbn; lia.
       * unfold remaining. cbn [length]. lia.
       * intros t Ht. injection Ht as <-. unfold remaining. cbn [length]. lia.
       * exists items, rest. auto.
-    + destruct (terminates_complete_short plen_ccsds plen_ccsds_pos (S (length stream + length (concat cs))) TRIM k
+    + destruct (terminates_complete_short plen_ccsds plen_ccsds_pos (S (length stream + length (concat cs))) T k
                None [] 0 0 cs) as (items & rest & H1 & H2 & H3 & H4).
       * assumption.
       * cbn; lia.
